@@ -1252,7 +1252,7 @@ impl<'a> InformationTlvIter<'a> {
     fn get_tlv(&mut self) -> InformationTlv<'a> {
         let s = u16::from_be_bytes(self.slice[(self.pos + 2)..=(self.pos + 3)].try_into().unwrap());
         let res = InformationTlv::for_slice(&self.slice[self.pos..self.pos+4+(s as usize)]);
-        self.pos += (res.length() + 4) as usize;
+        self.pos += usize::from(res.length()) + 4;
         res
     }
 }
